@@ -133,6 +133,9 @@ func TestVerifC04(t *testing.T) {
 	var jobs []job
 	for _, root := range roots {
 		for _, ap := range vAssetPaths(root) {
+			if vTimeOffsetAsset(ap) {
+				continue // see DESIGN: assets whose first segment does not start at media time 0 are probed by C02 only
+			}
 			a, err := vAsset(root, ap)
 			if err != nil || !a.LoopExact {
 				continue
